@@ -1,51 +1,4 @@
-import PyseqmVerif.Generated.LoopCensus
-import PyseqmVerif.Generated.Guards
-/-!
-# Static censuses regenerated from the live source on every run (AST walks, `vf/translate/gen.py`)
-
-* `Generated.LoopCensus.whileLoops`: every `while` loop on the SCF / purification / response / Davidson / MD path with a
-  syntactic judgement `capped` (its test or a guarded `break`/`raise`/`return` in its body compares against a bound).
-  C03 ("every call returns in bounded time"): no uncapped `while` may exist on that path.  The historical `SP2` loop
-  (`while notconverged.any()`) is exactly what this obligation rejects.
-* `Generated.Guards.raises`: every `raise` (function, exception class) in the modules that hold the documented input guards.
-  C18: each documented precondition has its guard statement in the expected function.
-
-These are source-shape dependent ties (DESIGN §2.6): if they break while every behavioural tie and probe passes, the verdict is
-`VIOLATION … no-failing-input-found` naming the obligation.
--/
-
-namespace Census
-open Generated
-
-/-- no `while` loop on the SCF/response/MD path is syntactically unbounded -/
-theorem all_while_loops_capped : ∀ l ∈ LoopCensus.whileLoops, l.capped = true := by decide
-
-/-- the purification loop is in the census (so that the statement above is about it) -/
-theorem sp2_loop_in_census : ∃ l ∈ LoopCensus.whileLoops, l.func = "SP2" ∧ l.capped = true := by decide
-
-structure Req where
-  file : String
-  func : String
-  exc : String
-  atLeast : Nat
-deriving Repr, DecidableEq
-
-/-- the documented guards: (file, function, exception class, minimal number of such `raise` statements) -/
-def required : List Req := [
-  ⟨"seqm/Molecule.py", "check_input", "ValueError", 1⟩,                       -- species rows sorted
-  ⟨"seqm/basics.py", "forward", "ValueError", 3⟩,                             -- UHF charge/multiplicity, RHF parity, occupation range
-  ⟨"seqm/basics.py", "__init__", "NotImplementedError", 1⟩,                   -- unrestricted + excited states
-  ⟨"seqm/basics.py", "forward", "Exception", 1⟩,                              -- excited active state without settings
-  ⟨"seqm/basics.py", "forward", "NotImplementedError", 2⟩,                    -- heterogeneous batch: RPA, analytical excited gradient
-  ⟨"seqm/seqm_functions/scf_loop.py", "make_Pnew_factory", "ValueError", 2⟩,  -- open shell + PM6 / SP2
-  ⟨"seqm/seqm_functions/scf_loop.py", "forward", "NotImplementedError", 2⟩,   -- UHF + Pulay / KSA
-  ⟨"seqm/MolecularDynamics.py", "initialize", "ValueError", 1⟩                -- unknown COM removal mode
-]
-
-def count (r : Req) : Nat :=
-  (Guards.raises.filter (fun g => g.file == r.file && g.func == r.func && g.exc == r.exc)).length
-
-/-- every documented guard is present in the source -/
-theorem documented_guards_present : ∀ r ∈ required, r.atLeast ≤ count r := by decide
-
-end Census
+import PyseqmVerif.Properties.CensusLoops
+import PyseqmVerif.Properties.CensusGuards
+import PyseqmVerif.Properties.CensusState
+/-! Umbrella import of the three static censuses (kept separate so that a broken census only breaks the property it belongs to). -/
